@@ -141,6 +141,42 @@ func (s *crashFS) imageAt(n int, tear int) (ldbstorage.Storage, error) {
 
 // ---- the harness
 
+var c21ctr int
+
+// c21continue uses the recovered database further: one fresh block is committed on top of the chain recovery showed,
+// the database is opened once more, and it must show exactly that chain plus the new block (nothing an interrupted
+// write or removal left behind may come back)
+func c21continue(c *Ctx, r *c19db, rst *leveldbstorage.Storage, toks []string, last int, keys, opIDs []string, in map[string]interface{}) {
+	c21ctr++
+	nb := &c19block{Height: last + 1, States: map[string]string{keys[0]: fmt.Sprintf("z%d", c21ctr)}, SufH: -1,
+		Known: []string{fmt.Sprintf("oz%d", c21ctr)}, InState: []string{fmt.Sprintf("oy%d", c21ctr)}}
+	if last < 0 {
+		nb.SufH = 0
+	}
+	if err := r.write(nb); err != nil {
+		c.Violation("C21:recovered-database-refuses-next-block", fmt.Sprintf("after recovery at height %d the next block cannot be committed: %v", last, err), in)
+		return
+	}
+	ntoks := append(append([]string{}, toks...), nb.tok())
+	ops := append(append([]string{}, opIDs...), nb.Known[0], nb.InState[0])
+	r2 := &c19db{env: r.env, st: rst, permst: rst, mapIDs: r.mapIDs, proofID: r.proofID, valueID: r.valueID, polID: r.polID, ops: r.ops}
+	if err := r2.open(); err != nil {
+		c.Violation("C21:database-does-not-open-after-crash", fmt.Sprintf("after recovery at height %d and one more commit the database does not open: %v", last, err), in)
+		return
+	}
+	last2 := -1
+	if m, found, err := r2.center.LastBlockMap(); err == nil && found {
+		last2 = int(m.Manifest().Height())
+	}
+	c.Eval(1)
+	c.Count("cut", "continued-after-recovery")
+	if last2 != last+1 {
+		c.Violation("C21:unwritten-block-visible-after-recovery", fmt.Sprintf("recovery showed the chain %s (last height %d); block %d was committed on it and the database opened again: its last height is %d", strings.Join(toks, " "), last, last+1, last2), in)
+		return
+	}
+	c.Case(fmt.Sprintf("hist K:%s O:%s ; %s", strings.Join(keys, ","), strings.Join(ops, ","), strings.Join(ntoks, " ")), r2.reads(keys, last2+1, c19lastSuf(ntoks, last2+1), ops))
+}
+
 func runC21(c *Ctx) error {
 	env, err := c19newEnv()
 	if err != nil {
@@ -293,17 +329,81 @@ func runC21(c *Ctx) error {
 			}
 			_ = rst.Close()
 		}
-		// a second phase: the newest block is removed again (Center.RemoveBlocks): at every cut it is there with all
-		// its data, or gone
+		// an import that stopped before its merge: two more block write databases are written (the second with more
+		// records than one removal batch) and never merged; after reopening nothing of them is visible and everything
+		// committed before is still there
+		if big {
+			img, err := fs.imageAt(to, 0)
+			if err != nil {
+				return err
+			}
+			rst, err := leveldbstorage.NewStorage(img, nil)
+			if err != nil {
+				return err
+			}
+			w := &c19db{env: env, st: rst, permst: rst, noMerge: true, mapIDs: ids, proofID: d.proofID, valueID: d.valueID, polID: d.polID, ops: d.ops}
+			if err := w.open(); err != nil {
+				return err
+			}
+			for j := 0; j < 2; j++ {
+				c21ctr++
+				ub := &c19block{Height: next + j, States: map[string]string{}, SufH: -1, Known: []string{fmt.Sprintf("ou%d", c21ctr)}}
+				for _, key := range keys {
+					if j == 1 || c.Chance(1, 3) {
+						ub.States[key] = fmt.Sprintf("u%d.%s", c21ctr, key)
+					}
+				}
+				if err := w.write(ub); err != nil {
+					return err
+				}
+			}
+			r := &c19db{env: env, st: rst, permst: rst, mapIDs: ids, proofID: d.proofID, valueID: d.valueID, polID: d.polID, ops: d.ops}
+			in := map[string]interface{}{"history": toks, "phase": "unmerged-import-of-two-blocks"}
+			if err := r.open(); err != nil {
+				c.Violation("C21:database-does-not-open-after-crash", fmt.Sprintf("history %s, then two block write databases written and not merged: %v", full, err), in)
+			} else {
+				last := -1
+				if m, found, err := r.center.LastBlockMap(); err == nil && found {
+					last = int(m.Manifest().Height())
+				}
+				c.Eval(1)
+				c.Count("cut", "unmerged-import")
+				if last != next-1 {
+					c.Violation("C21:committed-block-lost", fmt.Sprintf("history %s, then blocks %d and %d written but never merged: last height after recovery is %d", full, next, next+1, last), in)
+				} else {
+					c.Case(fmt.Sprintf("hist K:%s O:%s ; %s", strings.Join(keys, ","), strings.Join(opIDs, ","), full), r.reads(keys, last+1, c19lastSuf(toks, last+1), opIDs))
+					c21continue(c, r, rst, toks, last, keys, opIDs, in)
+				}
+			}
+			_ = rst.Close()
+		}
+		// a second phase: blocks are removed again (Center.RemoveBlocks), the newest one alone or, after two more
+		// commits, all the blocks that are not merged yet: at every cut the database shows a prefix of the chain, each
+		// block with all its data or gone, and it can be used further
 		if i%3 != 2 {
+			if i%3 == 1 {
+				for j := 0; j < 2; j++ {
+					b := newBlock(false)
+					if err := d.write(b); err != nil {
+						return err
+					}
+					toks = append(toks, b.tok())
+					next++
+				}
+				full = strings.Join(toks, " ")
+			}
+			base0 := next - 1
+			if i%3 == 1 {
+				base0 = next - 3
+			}
 			rfrom := fs.mark()
-			removed, err := d.center.RemoveBlocks(base.Height(int64(next - 1)))
+			removed, err := d.center.RemoveBlocks(base.Height(int64(base0)))
 			if err != nil {
 				return err
 			}
 			rto := fs.mark()
 			if removed {
-				c.Count("log-ops-in-phase", fmt.Sprintf("remove-%s:%d", map[bool]string{true: "big", false: "small"}[big], rto-rfrom))
+				c.Count("log-ops-in-phase", fmt.Sprintf("remove-%d-%s:%d", next-base0, map[bool]string{true: "big", false: "small"}[big], rto-rfrom))
 				for cut := rfrom; cut <= rto; cut++ {
 					img, err := fs.imageAt(cut, 0)
 					if err != nil {
@@ -314,9 +414,9 @@ func runC21(c *Ctx) error {
 						return err
 					}
 					r := &c19db{env: env, st: rst, permst: rst, mapIDs: ids, proofID: d.proofID, valueID: d.valueID, polID: d.polID, ops: d.ops}
+					in := map[string]interface{}{"history": toks, "cut": cut - rfrom, "of": rto - rfrom, "phase": "during-removal", "removed_from": base0}
 					if err := r.open(); err != nil {
-						c.Violation("C21:database-does-not-open-after-crash", fmt.Sprintf("history %s, crash after %d of %d storage writes of the removal of block %d: %v", full, cut-rfrom, rto-rfrom, next-1, err),
-							map[string]interface{}{"history": toks, "cut": cut - rfrom, "of": rto - rfrom})
+						c.Violation("C21:database-does-not-open-after-crash", fmt.Sprintf("history %s, crash after %d of %d storage writes of the removal of the blocks from %d: %v", full, cut-rfrom, rto-rfrom, base0, err), in)
 						_ = rst.Close()
 						continue
 					}
@@ -326,12 +426,12 @@ func runC21(c *Ctx) error {
 					}
 					c.Eval(1)
 					c.Count("cut", "during-removal")
-					if last != next-1 && last != next-2 {
-						c.Violation("C21:committed-block-lost", fmt.Sprintf("history %s, crash during the removal of block %d: last height after recovery is %d", full, next-1, last),
-							map[string]interface{}{"history": toks, "cut": cut - rfrom, "of": rto - rfrom, "phase": "during-removal"})
+					if last > next-1 || last < base0-1 {
+						c.Violation("C21:committed-block-lost", fmt.Sprintf("history %s, crash during the removal of the blocks from %d: last height after recovery is %d", full, base0, last), in)
 					} else {
 						hist := strings.Join(toks[:last+1], " ")
 						c.Case(fmt.Sprintf("hist K:%s O:%s ; %s", strings.Join(keys, ","), strings.Join(opIDs, ","), hist), r.reads(keys, last+1, c19lastSuf(toks[:last+1], last+1), opIDs))
+						c21continue(c, r, rst, toks[:last+1], last, keys, opIDs, in)
 					}
 					_ = rst.Close()
 				}
